@@ -1,4 +1,4 @@
-(** Pins/C01.v — the statements of the C01 theorems, pinned. *)
+(** Pins/C01.v — the statements of the C01 theorems, pinned: weakening a statement in Properties/C01.v makes this file fail. *)
 From PdfV Require Import Base.Prelude Gen.Generated Lex.Lexer Lex.StrLexer Syn.Prim Syn.Parser Syn.Run Codec.Model
   Safety.Front Safety.FrontProofs Properties.C01.
 
@@ -18,4 +18,7 @@ Check C01_decode_85_total : forall data, never_crashes (decode_85 data).
 Check C01_rle_terminates : forall data, run_length_decode data <> OutOfFuel.
 Check C01_rle_total_on_complete : forall data, rle_complete data = true -> never_crashes (run_length_decode data).
 Check C01_rle_panic_sites : forall data s, run_length_decode data = Panic s -> s = 102 \/ s = 103.
+Check C01_rle_refuted : ~ (forall d, never_crashes (run_length_decode d)) /\
+  run_length_decode [0] = Panic 102 /\ run_length_decode [200] = Panic 103 /\
+  rle_complete [0] = false /\ rle_complete [200] = false.
 Check C01_full_statement_refuted : ~ C01_full_statement.
